@@ -84,6 +84,11 @@ Definition grid3_above (pol : option policy) (f : Z) (bs : b3) (w : w3) : bool :
   let lo := f + 1 in let hi := f + blen bs in
   grid_ok_above pol lo hi f b1 s1 && grid_ok_above pol lo hi f b2 s2 && grid_ok_above pol lo hi f b3 s3.
 
+(** the batch's starting frontier height, when the policy retains it, is registered as a retained
+    anchor in every pool (update_tree: retain_anchor_checkpoint after insert_frontier) *)
+Definition frontier_retained (pol : option policy) (f : Z) (s : pstate) : bool :=
+  negb (oretains pol f) || zs_mem f (rt s).
+
 (** alignment of one batch: every height the batch checkpoints in some pool (or that is a retained
     boundary of the range) is, in pool [s], present, or not above the pool's oldest checkpoint, or
     one of the pool's own block checkpoints (then it was subject to the pool's budget) *)
@@ -137,6 +142,7 @@ Definition prop_case (c : case) : bool :=
       match res with
       | Ok _ =>
           w3_true truth post
+          && ((blen bs =? 0) || w3_all (frontier_retained pol f) post)
           && w3_all (grid_ok pol (f + 1) (f + blen bs)) post
           && aligned3 pol f bs post
       (* every batch the harness offers continues the chain the wallet is on: a refusal is a failure *)
@@ -172,7 +178,8 @@ Definition prop_case (c : case) : bool :=
 Definition known_class (c : case) : N :=
   match c with
   | CPut _ budget chunk pre pol f bs (Ok _) post truth roots_ok wit_ok hazard =>
-      let ledger_ok := w3_all ps_wf post && w3_true truth post && aligned3 pol f bs post in
+      let ledger_ok := w3_all ps_wf post && w3_true truth post && aligned3 pol f bs post
+                       && ((blen bs =? 0) || w3_all (frontier_retained pol f) post) in
       if roots_ok && wit_ok && ledger_ok
          && negb (w3_all (grid_ok pol (f + 1) (f + blen bs)) post)
          && grid3_above pol f bs post
